@@ -1003,3 +1003,25 @@ func c16StatusAsStored(c *Check, rule string) {
 	})
 	c.Hold(rule, "RecipientInfo.WriteTo:status-as-stored", r.FI.Decl.Pos(), msg == "", msg)
 }
+
+// c20EnvLast: environment placeholders are substituted in the tree as it will be returned: after the imports of the
+// root file were spliced in (snippet bodies and imported files enter the tree there; placeholders in them, or carried
+// into them by macros, exist only then). Read applies expandEnvironment to what readTree returned, on every path.
+func c20EnvLast(c *Check, rule string) {
+	c.Rule(rule, "Read substitutes environment placeholders in the tree readTree returned – after import expansion – on every path to its return (content that enters through `import` carries placeholders too)", 1)
+	r := c.need(rule, cfgparserRel, "", "Read")
+	if r == nil {
+		return
+	}
+	trees := r.Calls(calling("~/" + cfgparserRel + ".readTree"))
+	envs := r.Calls(calling("~/" + cfgparserRel + ".expandEnvironment"))
+	msg := ""
+	if len(trees) == 0 {
+		msg = "undecided: Read does not call readTree"
+	} else if len(envs) == 0 {
+		msg = "Read returns the tree without substituting environment placeholders after the imports were expanded: `{env:NAME}` inside a snippet or an imported file (or carried there by a macro) reaches the modules as the literal text, and printing and parsing the tree again expands it (the round trip changes the tree)"
+	} else if ok, w := r.MustPass(trees, false, r.F.IsNormalExit, isPt(envs)); !ok {
+		msg = "a path from readTree to Read's return skips the substitution of environment placeholders: " + w
+	}
+	c.Hold(rule, "Read:environment-after-imports", r.FI.Decl.Pos(), msg == "", msg)
+}
